@@ -359,6 +359,17 @@ func matrix(args []string) {
 			}
 		}
 	}
+	// a descent DIRECTLY behind a fragment that selects several elements, where the first selected element has no match and a later one
+	// has it only two or three levels down (shared by the evaluators and, through rowsDoc / afterDescent, by the mutators)
+	for _, oc := range []bool{false, true} {
+		for _, mf := range multiBeforeDescent() {
+			for _, tail := range afterDescent() {
+				d := rowsDoc(oc)
+				emit(3, append([]jl.Frag{jl.FRoot(), jl.FChild("rows"), mf, jl.FDesc()}, tail...), d)
+				emit(2, append([]jl.Frag{jl.FRoot(), mf, jl.FDesc()}, tail...), jl.Norm(d["o"].([]jl.Node)[1]))
+			}
+		}
+	}
 	// scripts that are TRUE on a null element (and on scalar / container elements): the element itself is the operand
 	for _, f := range []jl.Frag{
 		jl.FFilter("eqs", "", jl.Null()), jl.FFilter("nes", "", jl.Null()), jl.FFilter("eqs", "", jl.Int(3)), jl.FFilter("nes", "", jl.Int(3)),
@@ -440,6 +451,35 @@ func matrix(args []string) {
 			}
 		}
 	}
+}
+
+// rowsDoc: {"q": .., "rows": R}; R (array, or object when objCont) has four elements each with an id; the first has no k / a.b / array
+// below it, the second has k three levels down and a.b two levels down, the third has k two levels down inside an array, the fourth has
+// k at its top.
+func rowsDoc(objCont bool) jl.Node {
+	c := &ctr{n: 100}
+	els := []jl.Node{
+		jl.Obj("id", jl.Int(1), "z", c.next()),
+		jl.Obj("id", jl.Int(2), "m", jl.Obj("n", jl.Obj("k", c.next())), "a", jl.Obj("b", c.next())),
+		jl.Obj("id", jl.Int(3), "u", jl.Arr(jl.Obj("k", c.next()), c.next())),
+		jl.Obj("id", jl.Int(4), "k", c.next()),
+	}
+	var rows jl.Node
+	if objCont {
+		rows = jl.Obj("a", els[0], "b", els[1], "c", els[2], "d", els[3])
+	} else {
+		rows = jl.Arr(els...)
+	}
+	return jl.Obj("q", jl.Int(9999), "rows", rows)
+}
+
+func multiBeforeDescent() []jl.Frag {
+	A := jl.Absent
+	return []jl.Frag{jl.FWild(), jl.FUnion(0, 1, 2), jl.FUnion("a", "b", "c"), jl.FSlice(0, 3, A), jl.FSlice(A, A, A), jl.FFilter("gtk", "id", jl.Int(0)), jl.FFilter("exk", "id", jl.Null())}
+}
+
+func afterDescent() [][]jl.Frag {
+	return [][]jl.Frag{{jl.FChild("k")}, {jl.FChild("a"), jl.FChild("b")}, {jl.FNth(0)}, {jl.FWild()}, {jl.FChild("n"), jl.FWild()}, {jl.FNth(0), jl.FChild("k")}}
 }
 
 // ---------------------------------------------------------------- random trees and paths
